@@ -74,6 +74,66 @@ theorem signRest_append (a b : List Char) (h : a ≠ []) : signRest (a ++ b) = s
 /-- `unsign` of the spec is `signRest` of the model -/
 theorem unsign_eq (s : List Char) : unsign s = signRest s := rfl
 
+/-- a number token starts (behind its sign) with a digit; white space and sign handling of the scanner -/
+theorem strict_shape (t rest : List Char) (v : Rat) (h : strictNumber t = some v) :
+    numStart (t ++ rest) = intPart t ++ (afterInt t ++ rest) ∧ intPart t ≠ [] ∧
+    (∀ c ∈ intPart t, isDigit c = true) ∧ dropSpace (t ++ rest) = t ++ rest := by
+  unfold strictNumber at h
+  split at h
+  · cases h
+  · rename_i hc
+    simp only [not_or, Bool.not_eq_true', Bool.not_eq_false] at hc
+    obtain ⟨hip, _⟩ := hc
+    have hipne : intPart t ≠ [] := by intro e; rw [e] at hip; simp at hip
+    have hu : unsign t = intPart t ++ afterInt t := (List.takeWhile_append_dropWhile).symm
+    have hune : unsign t ≠ [] := by rw [hu]; simp [hipne]
+    have htne : t ≠ [] := by
+      intro e; apply hune; subst e; rfl
+    have hd0 : ∀ c ∈ intPart t, isDigit c = true := takeWhile_all isDig _
+    have hfirst : ∀ c, t.head? = some c → isSpace c = false := by
+      intro c hc
+      by_cases hsg : t.head? = some '-' ∨ t.head? = some '+'
+      · rcases hsg with e | e <;> (rw [e] at hc; cases hc; decide)
+      · have : unsign t = t := by unfold unsign; rw [if_neg hsg]
+        rw [this] at hu
+        have hh : t.head? = (intPart t).head? := by
+          conv => lhs; rw [hu]
+          exact head_append_of_ne _ _ hipne
+        rw [hh] at hc
+        have hm : c ∈ intPart t := List.mem_of_mem_head? hc
+        exact digit_not_space c (hd0 c hm)
+    have hds : dropSpace (t ++ rest) = t ++ rest := by
+      cases t with
+      | nil => exact absurd rfl htne
+      | cons a as => exact dropSpace_id a _ (hfirst a rfl)
+    have hhead : (t ++ rest).head? = t.head? := head_append_of_ne _ _ htne
+    have hns : numStart (t ++ rest) = unsign t ++ rest := by
+      unfold numStart signRest unsign
+      rw [hds, hhead]
+      split
+      · exact tail_append_of_ne _ _ htne
+      · rfl
+    refine ⟨?_, hipne, hd0, hds⟩
+    rw [hns, hu, List.append_assoc]
+
+/-- a number token is no infinity literal -/
+theorem strict_not_inf (t rest : List Char) (v : Rat) (h : strictNumber t = some v) : infScan (t ++ rest) = none := by
+  obtain ⟨h1, h2, h3, _⟩ := strict_shape t rest v h
+  unfold infScan
+  rw [h1]
+  cases hq : intPart t with
+  | nil => exact absurd hq h2
+  | cons d ds =>
+    have hd : isDigit d = true := h3 d (by rw [hq]; simp)
+    have : lower d ≠ 'i' := by
+      unfold lower
+      unfold isDigit at hd
+      simp only [Bool.and_eq_true, decide_eq_true_eq] at hd
+      rw [if_neg (by omega)]
+      intro e; subst e; simp at hd
+    simp only [List.cons_append]
+    rw [infWord_none d _ this]
+
 /-- **a number token is scanned exactly**: value and end position -/
 theorem scan_strict (t rest : List Char) (v : Rat) (h : strictNumber t = some v) (hs : Stops rest) :
     scanOk (t ++ rest) = true ∧ scanVal (t ++ rest) = v ∧ scanRest (t ++ rest) = rest := by
